@@ -257,7 +257,6 @@ Fixpoint perms (l : list Z) (fuel : nat) : list (list Z) :=
   end.
 Definition perms_upto (n : nat) : list (list Z) :=
   flat_map (fun k => perms (zseq 0 k) k) (seq 1 n).
-Definition involutive (order : list Z) : bool := zl_eqb (inv_order order) order.
 
 (* ------------------------------------------------------------------------------------------ *)
 (* C. ownership protocol                                                                       *)
